@@ -1699,8 +1699,6 @@ func (s *Netceptor) handleMessageData(md *MessageData) error {
 		s.listenerLock.RUnlock()
 		select {
 		case <-pc.context.Done():
-			close(pc.recvChan)
-
 			// the listener was closed while the message was waiting to be read
 			return s.serviceUnknown(md)
 		case pc.recvChan <- md:
